@@ -203,8 +203,8 @@ func solveOne(rep *FuncReport, o *Obligation, idx int, opt SolveOptions) {
 	satOut := ""
 	for _, seed := range opt.Seeds {
 		quick := timeout
-		if quick > 3*time.Second {
-			quick = 3 * time.Second
+		if quick > 1500*time.Millisecond {
+			quick = 1500 * time.Millisecond
 		}
 		r := runSolver(solvers[0], file, quick, seed)
 		o.ByWhich[solvers[0].name] = r.status
